@@ -7,7 +7,7 @@
     (ConvertColumn), query column -> star result (star_columns) — so a star or a
     plain reference cannot change a type, whatever DDL history produced the
     catalog column (the history is C08's business). *)
-From Verif Require Import Model.Compile Spec.PgScope Judge.JQ Judge.J02 Proofs.ColumnsFacts Proofs.TypeFlowFacts.
+From Verif Require Import Model.Compile Spec.PgScope Judge.JQ Judge.J02 Proofs.ColumnsFacts Proofs.TypeFlowFacts Proofs.ScopeRefine Proofs.ScopeRefineT Proofs.SelectRefine.
 Open Scope string_scope.
 Open Scope list_scope.
 
@@ -58,3 +58,58 @@ Theorem C05_cte_partial : forall rel cols,
   map attrs cols' = map attrs cols /\ map qc_name cols' = map qc_name cols.
 Proof. exact cte_rehome_attrs. Qed.
 Print Assumptions C05_cte_partial.
+
+(** ** Refinement to the reference semantics, with types.  [row_rel x c]: the
+    reference row entry x and sqlc's result column c have the same name, and if x comes from a catalog column,
+    c has that column's data type, nullability and array-ness.  For a simple
+    SELECT sqlc and the reference semantics accept the same statements and
+    their rows are related column by column - whether the column is referenced
+    directly, through an alias, through a star, or renamed with AS.
+    The statements covered ("simple SELECT"): SELECT <targets> FROM <base
+    tables, each with or without alias, separated by commas or combined by JOIN> [WHERE / GROUP BY / HAVING / ORDER BY]
+    with no WITH clause and no sub-select; every target a star (bare or qualified by a
+    relation name), a column reference (c or t.c, with or without AS) or an expression
+    that is not a column reference, CASE, COALESCE, sub-select or cast
+    ([target_ok]).  [strict] / [deep] select how much the reference semantics
+    checks: strict = every column reference of every clause must resolve
+    (PostgreSQL) - the theorem then needs clauses without column references -,
+    non-strict = only what property C10 lists (columns paired with a parameter:
+    none here); deep = references inside result expressions must resolve - the
+    theorem then needs result expressions without inner references -, non-deep =
+    only targets that ARE references.  The hypotheses on [from_items],
+    [level_refs], [level_subselects] state these shape facts about the AST. *)
+Theorem C05_level_types_partial : forall e sc tables targets,
+  scope_rel_t sc tables -> NoDup (map si_name sc) ->
+  Forall (fun it => NoDup (map sc_name (si_cols it))) sc ->
+  Forall (target_ok sc) targets ->
+  match row_of sc [sc] targets, targets_columns e tables targets with
+  | POk row, Ok cols => Forall2 row_rel row cols
+  | PErr _, Err _ => True
+  | _, _ => False
+  end.
+Proof. exact level_refines_t. Qed.
+Print Assumptions C05_level_types_partial.
+
+Theorem C05_simple_select_types_partial : forall (e : env) (strict deep : bool) (stmt : node) (targets rvs fitems : list node) (leavess : list (list node)) (f : nat),
+  kind_of stmt = "SelectStmt" -> kid "WithClause" stmt = Nil ->
+  kid "TargetList" stmt = NList targets -> targets <> [] ->
+  kid "FromClause" stmt = NList fitems -> Forall2 (join_tree (S f)) fitems leavess -> rvs = List.concat leavess ->
+  from_items (kid "FromClause" stmt) = rvs ->
+  (if strict then level_refs (NList [kid "FromClause" stmt; kid "WhereClause" stmt; kid "GroupClause" stmt;
+                                     kid "HavingClause" stmt; kid "SortClause" stmt])
+   else paired_refs (NList [kid "FromClause" stmt; kid "WhereClause" stmt; kid "GroupClause" stmt;
+                            kid "HavingClause" stmt; kid "SortClause" stmt])) = [] ->
+  level_subselects (NList ([kid "FromClause" stmt; kid "WhereClause" stmt; kid "GroupClause" stmt;
+                            kid "HavingClause" stmt; kid "SortClause" stmt] ++ map (kid "Val") targets ++ [])) = [] ->
+  (if deep then level_refs (NList (map (kid "Val") targets)) else direct_refs targets) = refs_of targets ->
+  NoDup (map visible_name rvs) ->
+  (forall sc, spec_scope (env_cat e) rvs = POk sc ->
+     Forall (fun it => NoDup (map sc_name (si_cols it))) sc /\ Forall (target_ok sc) targets) ->
+  forall g,
+  match describe (env_cat e) strict deep (S (S f)) [] [] stmt, output_columns (S g) e [] stmt with
+  | POk row, Ok cols => Forall2 row_rel row cols
+  | PErr _, Err _ => True
+  | _, _ => False
+  end.
+Proof. exact simple_select_refines_t. Qed.
+Print Assumptions C05_simple_select_types_partial.
